@@ -194,6 +194,25 @@ pub fn gen_mat(r: &mut Rng, m: usize, n: usize, maxk: i64) -> Array2<f64> {
     a
 }
 pub fn gen_aff(r: &mut Rng, outdim: usize, indim: usize, maxk: i64) -> AffFunc {
+    // one in eight square maps is structured (identity / signed permutation-like diagonal / zero matrix, with a random
+    // bias): the shapes an implementation is tempted to special-case
+    if outdim == indim && outdim > 0 && r.chance(1, 8) {
+        let mut a = Array2::<f64>::zeros((outdim, indim));
+        match r.below(3) {
+            0 => {
+                for i in 0..outdim {
+                    a[[i, i]] = 1.0;
+                }
+            }
+            1 => {
+                for i in 0..outdim {
+                    a[[i, i]] = [1.0, -1.0, 2.0, 0.5][r.below(4)];
+                }
+            }
+            _ => {}
+        }
+        return AffFunc::from_mats(a, gen_vec(r, outdim, maxk));
+    }
     AffFunc::from_mats(gen_mat(r, outdim, indim, maxk), gen_vec(r, outdim, maxk))
 }
 /// a decision row that is not all-zero most of the time
